@@ -144,6 +144,11 @@ func (r *rdbdriver) findMapInSortedData(domain, mtype []byte, context Context) (
 
 		foundLabel := foundKey[prefixLen : len(foundKey)-1]
 		length := findCommonLongestPrefix(reversedZone, foundLabel)
+		if length >= len(reversedZone) {
+			// the closest key belongs to the queried name itself (its wildcard map,
+			// which only applies to names below it): continue with the parent domain
+			length = getLengthWithoutLastLabel(reversedZone, len(reversedZone)) - 1
+		}
 		if length == 0 {
 			break
 		}
